@@ -64,8 +64,10 @@ __CPROVER_ensures(IS_HEADER_TYPE(state->programHeader.type) || state->programHea
 __CPROVER_ensures(IS_HEADER_TYPE(state->programHeader.type) ==> (state->programHeader.len > 0
     && __CPROVER_pointer_in_range_dfcc(buffer, state->programHeader.ptr, buffer + RET)
     && OFF(state->programHeader.ptr) + state->programHeader.len <= OFF(buffer) + RET))
+#ifdef HDR_LASTBYTE
 /* a header never ends in CR or LF (so trimming the terminator cannot eat into it) */
 __CPROVER_ensures(IS_HEADER_TYPE(state->programHeader.type) ==> (state->programHeader.ptr[state->programHeader.len - 1] != '\r' && state->programHeader.ptr[state->programHeader.len - 1] != '\n'))
+#endif
 __CPROVER_ensures(state->programHeader.type == SCPI_TOKEN_UNKNOWN ==> state->programHeader.len == 0)
 __CPROVER_ensures(state->programHeader.type == SCPI_TOKEN_INVALID ==> (state->programHeader.len == 1 && state->programData.len == 0))
 /* program data: empty, or the list that follows the header and its white space, inside the unit */
